@@ -343,6 +343,8 @@ def _expected_throw(fam, cfg, op, args):
                 return True, ('numerator_is_nar', 'operand_is_nar')
             return False, ()
         return False, ()
+    if fam == 2 and len(c) > 5 and c[5] == 0:
+        return None, ()      # native float / double run by the same driver (C02): no exception mode, both builds identical
     if fam == 2:
         n, es, sub, sup, sat = c[:5]; fb = n - 1 - es
         def cls(x):
